@@ -16,14 +16,14 @@ pub struct RecordComponent {
 	pub name: RecordName,
 	pub descriptor: FieldDescriptor,
 
-	pub(crate) signature: Option<FieldSignature>,
+	pub signature: Option<FieldSignature>,
 
-	pub(crate) runtime_visible_annotations: Vec<Annotation>,
-	pub(crate) runtime_invisible_annotations: Vec<Annotation>,
-	pub(crate) runtime_visible_type_annotations: Vec<TypeAnnotation<TargetInfoField>>,
-	pub(crate) runtime_invisible_type_annotations: Vec<TypeAnnotation<TargetInfoField>>,
+	pub runtime_visible_annotations: Vec<Annotation>,
+	pub runtime_invisible_annotations: Vec<Annotation>,
+	pub runtime_visible_type_annotations: Vec<TypeAnnotation<TargetInfoField>>,
+	pub runtime_invisible_type_annotations: Vec<TypeAnnotation<TargetInfoField>>,
 
-	pub(crate) attributes: Vec<Attribute>,
+	pub attributes: Vec<Attribute>,
 }
 
 impl RecordComponent {
